@@ -93,9 +93,9 @@ CHECKS = {
         category="model_checking", design_ref="DESIGN.md 4.7, 5/C11",
         technique="TLA+ spec MultiFit.tla (overlap patterns of parameter names, shared parameter nodes vs per-object minimizer copies, mirrored fix/release, constraint bookkeeping, block layout of shared sources with the fit-index -> data-index map) model-checked with TLC; histories replayed on real MultiFit objects; cost and fit result compared with the joint -2 log L / GLS solution assembled from the specification's block layout",
         text="TLC checks Mirrored, SymmetricLayout, EverySourceOnItsDiagonal and FixedKeepValue over set/fix/release issued on the multi-fit or on members, constraints on either, shared sources on every subset, for six overlap patterns "
-             "(disjoint, fully shared, chain, non-adjacent sharing, mixed with a non-chi2 member, single member). Each history is executed on a real MultiFit: one value per name in the multi-fit and all members, ndf = the specification's integer, "
+             "(disjoint, fully shared, chain, non-adjacent sharing, mixed with a non-chi2 member, reordered names, two XY members with a shared x uncertainty, single member). Each history is executed on a real MultiFit: one value per name in the multi-fit and all members, ndf = the specification's integer, "
              "cost = sum of member costs without shared sources and = the joint -2 log L with the shared matrix in exactly the blocks the specification lists, the joint covariance matrix itself, after do_fit the optimum = the joint GLS solution and every member reports sub-blocks of the multi-fit result.",
-        note="Trusted: TLC, harness/adapters/multifit.py (numpy GLS). Members are 3-point indexed fits with linear models plus one Poisson histogram member; sources absolute and uncorrelated between points. Known finding KF-C11-SHARED-MEMBER-CONSTRAINTS is reported as such."),
+        note="Trusted: TLC, harness/adapters/multifit.py (numpy GLS). Members are 3-point indexed fits with linear models plus one Poisson histogram member; sources absolute and uncorrelated between points. For the XY pattern with a shared x uncertainty the oracle is a new multi-fit brought to the same configuration with the reads deleted (the live object is read after every mutator). Known finding KF-C11-SHARED-MEMBER-CONSTRAINTS is reported as such."),
     "C09": dict(
         category="model_checking", design_ref="DESIGN.md 4.8, 5/C09",
         technique="TLA+ specs FileIO.tla (append-mode handle, truncate, one document per path, read through own / base / other class, second cycle) and ErrorModel.tla / FitCache.tla with a Reload action at every position of their histories, model-checked with TLC; replayed with real files on a catalogue of 22 configured objects, and with the original object kept alive next to the reloaded one for every later step",
